@@ -20,7 +20,7 @@ import (
 	f1testing "github.com/form3tech-oss/f1/v2/pkg/f1/testing"
 )
 
-var keyAlpha = []string{"a", "b", "id", "zone"}
+var keyAlpha = []string{"a", "b", "id", "zone", "Zone", "A"} // incl. keys that differ only in case
 
 // mix: how one run behaves
 type mix struct {
@@ -38,6 +38,7 @@ var mixes = []mix{
 	{name: "drops", iters: 3, drops: true, fails: map[int]bool{1: true}},
 	{name: "setupfail", iters: 3, setup: "fail"},
 	{name: "1pass", iters: 1},
+	{name: "setuppanic", iters: 2, setup: "panic"},
 }
 
 type series struct {
@@ -96,6 +97,9 @@ func checkRuns(r *hlib.Rec, labels map[string]string, scenario string, runs []mi
 			if mx.setup == "fail" {
 				t.FailNow()
 			}
+			if mx.setup == "panic" {
+				panic("setup panics")
+			}
 			return func(t *f1testing.T) {
 				id, _ := strconv.Atoi(t.Iteration)
 				if mx.drops {
@@ -145,7 +149,7 @@ func checkRuns(r *hlib.Rec, labels map[string]string, scenario string, runs []mi
 		for _, s := range gather(reg, "form3_loadtest_setup") {
 			total += s.count
 			want := "success"
-			if mx.setup == "fail" {
+			if mx.setup == "fail" || mx.setup == "panic" {
 				want = "fail"
 			}
 			if s.count > 0 && s.labels["result"] != want {
@@ -179,7 +183,7 @@ func checkLabels(r *hlib.Rec, got, want map[string]string, scenario, family, inp
 
 func suite(reps int, maxRuns int) hlib.Suite {
 	return hlib.Suite{Name: fmt.Sprintf("labels<=3-of-4/mixes/runs<=%d/repetitions=%d", maxRuns, reps), Run: func(r *hlib.Rec) {
-		for mask := 0; mask < 16; mask++ {
+		for mask := 0; mask < 1<<len(keyAlpha); mask++ {
 			labels := map[string]string{}
 			for i, k := range keyAlpha {
 				if mask&(1<<i) != 0 {
@@ -195,7 +199,7 @@ func suite(reps int, maxRuns int) hlib.Suite {
 					seqs = append(seqs, []mix{a})
 				}
 				if maxRuns >= 2 {
-					seqs = append(seqs, []mix{mixes[1], mixes[0]}, []mix{mixes[3], mixes[5]}, []mix{mixes[4], mixes[0]}, []mix{mixes[2], mixes[4]})
+					seqs = append(seqs, []mix{mixes[1], mixes[0]}, []mix{mixes[3], mixes[5]}, []mix{mixes[4], mixes[0]}, []mix{mixes[2], mixes[4]}, []mix{mixes[6], mixes[0]})
 				}
 				if maxRuns >= 3 {
 					seqs = append(seqs, []mix{mixes[3], mixes[1], mixes[5]}, []mix{mixes[0], mixes[4], mixes[2]})
